@@ -818,6 +818,12 @@ func run(c *core.Case) {
 		return
 	}
 
+	// one case in ten hashes from several goroutines at once (concurrent.go)
+	if r.Intn(10) == 0 {
+		mo.concurrentCase(r)
+		return
+	}
+
 	gen := genModel(r)
 	if r.Intn(6) == 0 {
 		mal, what := malform(r, gen)
@@ -1117,6 +1123,7 @@ func Prop() *core.Prop {
 		"values_with_non_ascii_text", "reference_comparisons", "permutations_identities", "permutations_features", "permutations_forms",
 		"permutations_fields", "permutations_values", "permutations_combined", "values_unmarshalled", "values_from_GetInfo", "decoded_values_with_an_empty_value", "reference_comparisons_decoded", "malformed_values", "malformed_values_unmarshalled",
 		"hash_calls", "appendhash_calls",
+		"concurrent_cases", "concurrent_hashes", "concurrent_cases_with_overlapping_goroutines", "concurrent_cases_with_4_or_more_goroutines_at_once", "concurrent_cases_with_gomaxprocs_ge_4",
 	}
 	for _, a := range linked() {
 		req = append(req, "hash:"+a.name, "hash_function_checks:"+a.name)
@@ -1125,9 +1132,11 @@ func Prop() *core.Prop {
 		"percent_in_identity_category", "percent_in_identity_type", "percent_in_identity_lang", "percent_in_identity_name",
 		"percent_in_feature", "percent_in_form_type", "percent_in_field_var", "percent_in_field_value")
 	return &core.Prop{
-		ID:    "C20",
-		Level: core.Exploration,
-		Rule:  "each case is one PRNG disco#info value: 0-4 identities distinct in (category, type, lang) that often share key prefixes, 0-8 features (duplicates, prefixes of one another, '<', non-ASCII, empty), 0-3 forms distinguishable by FORM_TYPE (about 1 in 6 without FORM_TYPE, 1 in 12 empty) with 0-4 distinctly named fields of every field type and 0-4 values; one hash function per case drawn from the linked functions of crypto's list, obtained from the library by one of three routes and first checked against the reference constructor on fixed probes; one text in four carries a printf verb or another metacharacter (%, %s, %d, %v, %%, %!, %20, backslash, tab, newline, <, &, /, quotes) at a random position. From the arrangement with every list in octet order the monitor compares Hash with an independent XEP-0115 5.1 implementation (values whose forms all carry FORM_TYPE), then permutes one list at a time (all permutations up to 3 elements, 4 in thorough; reversal, rotation and 3 samples beyond), then shuffles everything, building the value directly and by decoding a generated <query/> document with interleaved children; every Hash call is accompanied by AppendHash with three empty destinations and a repeated Hash. One case in six is an ill-formed shape of XEP-0115 5.4 (FORM_TYPE not hidden / multi-valued / valueless / twice, duplicate var, fixed fields without var, duplicate identity key, duplicate form) for which only no panic, Hash = AppendHash and repeatability are demanded. distinct = distinct value shapes (identities, features<=4, per form: FORM_TYPE present, fields, max values).",
+		ID:            "C20",
+		Level:         core.Exploration,
+		Race:          true,
+		ReplayRepeats: 20,
+		Rule:          "each case is one PRNG disco#info value: 0-4 identities distinct in (category, type, lang) that often share key prefixes, 0-8 features (duplicates, prefixes of one another, '<', non-ASCII, empty), 0-3 forms distinguishable by FORM_TYPE (about 1 in 6 without FORM_TYPE, 1 in 12 empty) with 0-4 distinctly named fields of every field type and 0-4 values; one hash function per case drawn from the linked functions of crypto's list, obtained from the library by one of three routes and first checked against the reference constructor on fixed probes; one text in four carries a printf verb or another metacharacter (%, %s, %d, %v, %%, %!, %20, backslash, tab, newline, <, &, /, quotes) at a random position. From the arrangement with every list in octet order the monitor compares Hash with an independent XEP-0115 5.1 implementation (values whose forms all carry FORM_TYPE), then permutes one list at a time (all permutations up to 3 elements, 4 in thorough; reversal, rotation and 3 samples beyond), then shuffles everything, building the value directly and by decoding a generated <query/> document with interleaved children; every Hash call is accompanied by AppendHash with three empty destinations and a repeated Hash. One case in six is an ill-formed shape of XEP-0115 5.4 (FORM_TYPE not hidden / multi-valued / valueless / twice, duplicate var, fixed fields without var, duplicate identity key, duplicate form) for which only no panic, Hash = AppendHash and repeatability are demanded. distinct = distinct value shapes (identities, features<=4, per form: FORM_TYPE present, fields, max values).",
 		Assumptions: []string{
 			"the reference implementation in props/c20 is XEP-0115 5.1 with i;octet ordering; it reproduces the two worked examples of the XEP (checked at start-up, otherwise the run is inconclusive)",
 			"permutation invariance is demanded of values that are sets: identities distinct in (category, type, lang), field names distinct inside a form, FORM_TYPE hidden and single-valued or absent, forms pairwise distinguishable by FORM_TYPE; the values of a FORM_TYPE field are never permuted",
@@ -1138,7 +1147,7 @@ func Prop() *core.Prop {
 		},
 		Cases: func(tier string) int {
 			if tier == "thorough" {
-				return 2000000
+				return 400000
 			}
 			return 5000
 		},
